@@ -5,14 +5,22 @@ VQuick == {<<0, 1>>, <<1, 250000>>, <<1, 2>>, <<1, 1>>, <<3, 1>>, <<-2, 1>>}
 \* + values whose differences fall between "prints as zero" and the colouring threshold (7*10^-6, 7*10^-5 relative),
 \*   a second negative value and a large one
 VThorough == VQuick \cup {<<1000007, 1000000>>, <<100007, 100000>>, <<-1, 2>>, <<10, 1>>}
-Var(eb, ec, shift, proc) == [eb |-> eb, ec |-> ec, shift |-> shift, proc |-> proc]
-VarQuick == {Var({1, 2}, {1, 2}, 0, TRUE), Var({1, 2}, {1, 2}, 1, FALSE),
+VarN(eb, ec, nb, nc, shift, proc) == [eb |-> eb, ec |-> ec, nb |-> nb, nc |-> nc, shift |-> shift, proc |-> proc]
+Var(eb, ec, shift, proc) == VarN(eb, ec, 0, 0, shift, proc)
+\* naming modes (NamingSeq): 1 = a task named like the operation of an earlier task, 4 / 2 = of a later task (both storage orders)
+\* (quick: the two variants with both tasks on both sides carry the colliding names; plain names with both tasks: thorough + random pairs)
+VarQuick == {VarN({1, 2}, {1, 2}, 4, 2, 0, TRUE), VarN({1, 2}, {1, 2}, 1, 1, 1, FALSE),
              Var({1, 2}, {2}, 1, TRUE), Var({1}, {1, 2}, 0, FALSE),
              Var({1}, {2}, 0, TRUE), Var({}, {1}, 1, TRUE)}
 \* all ordered pairs are enumerated, so shift = 1 adds nothing once every entity combination is there
 VarThorough == {Var(eb, ec, 0, Cardinality(eb) + Cardinality(ec) # 3) : eb \in SUBSET {1, 2}, ec \in SUBSET {1, 2}}
+               \cup {VarN({1, 2}, {1, 2}, k, k, 0, TRUE) : k \in 1..5}
+               \cup {VarN({1, 2}, {1, 2}, 1, 0, 0, TRUE), VarN({1, 2}, {1, 2}, 0, 1, 0, FALSE), VarN({1, 2}, {1, 2}, 4, 2, 0, TRUE), VarN({1, 2}, {1, 2}, 3, 5, 0, TRUE)}
 \* the slot table, printed once for the harness (binding of slots to race.json fields and row labels)
 ASSUME PrintT(<<"SLOTS", SlotSeq>>)
+\* the naming modes, printed for the harness; in every mode task name t<e> identifies entity e
+ASSUME PrintT(<<"NAMING", NamingSeq>>)
+ASSUME NamesIdentifyEntities
 \* the direction flag the transcription passes for every row kind is the statement's direction
 ASSUME DirectionsAgree
 ====
